@@ -32,6 +32,10 @@ CHECKS = {
                 technique="symbolic execution of the compiled EvalRates with sentinel-initialised k: the store guard of every k[i] is extracted and SMT-compared with Tmin<=T<Tmax for all T; callers' zero-initialisation read from the compiled Fex/Jac",
                 text="For every window shape (none, lower, upper, both, zero, negative, equal bounds; KROME spellings .LE. > d-exponents NONE) in all six formats, z3 shows for all Tgas that k[i] is assigned iff the window predicate holds; adjacent piecewise windows have exactly one active member at every T including boundaries; Fex/Jac hand EvalRates a zero-initialised array.",
                 note="Temperature is a real-valued symbol (boundaries are ordinary values). Reactions overridden by a rate modifier are excluded by design (C13)."),
+    "C07": dict(engine=E2, cat="exploration", sec="6 C07",
+                technique="decode(encode(m)) == m: CrossHair (z3) drives symbolic selectors over abstract reactions, independent per-format encoders write the line/file, the real parsers decode it (untraced); every selection of every condition explored",
+                text="For each of the six formats: reactant and product multisets (marker tokens never become species; names at the column-width limit), alpha/beta/gamma for signed/exponent/integer literals, temperature window, index and the reaction type of every format code (KIDA out-of-range formula -> 3, UCLCHEM FREEZE window rule); files with blank, whitespace-only, comment and directive lines at every position yield one reaction per data line in file order.",
+                note="Selector enumeration (29 conditions x 512 selections), not symbolic strings; the encoders are the format definitions."),
     "C08": dict(engine=E2, cat="exploration", sec="6 C08",
                 technique="CrossHair (z3) drives symbolic selectors over compositions; each selected composition is spelled as a name, parsed by the real Species (untraced) and compared field by field with the composition it was built from; all paths of every condition exhausted",
                 text="All ordered pairs and triples of clash-prone symbols (H/He, C/Cl/Ca, S/Si, N/Na/Ni, F/Fe...), every default element with counts and 6 charge states, surface prefixes '#'/'G', ortho/para labels, the UCLCHEM upper-case list with replacement (renamed names), electrons, grains, H2*, c-/l- isomers: element counts, charge, phase, gas counterpart, mass number and is_atom are exactly those of the composition; names with foreign characters are rejected.",
